@@ -314,6 +314,9 @@ func (cl *Cluster) drawDeepKnobs(p profile) {
 		k.byzPm = K("byzantine_frame_permille", func() int64 { return int64(c.PickW("byz", []int{2, 3})) * int64(p.byz) / 4 })
 	}
 	k.syncPm = 25
+	if p.spec > 0 {
+		k.specPm = K("speculative_build_permille", func() int64 { return int64(c.PickW("spec", []int{2, 3})) * int64(p.spec) / 4 })
+	}
 	c.Probe("deep_epoch_run")
 }
 
@@ -328,6 +331,9 @@ func Run(c *sim.Ctx, prop string) {
 	c.ProbeDecl("event_frame_gt1", "run_with_forks", "run_with_epoch_change", "one_event_decided_2_or_more_frames", "one_event_decided_3_or_more_frames")
 	if p.deep > 0 {
 		c.ProbeDecl("deep_epoch_run")
+		if p.spec > 0 {
+			c.ProbeDecl("long_walk_build_discarded")
+		}
 		if p.deepEv[1] == 0 {
 			c.ProbeDecl("build_capped_100_frames_above_self_parent", "valid_claim_more_than_100_frames_above_self_parent", "block_of_frame_256_or_higher")
 		}
@@ -450,6 +456,7 @@ type gen struct {
 	lastSnap  string
 	storms    int
 	lagClaims int
+	lagSpecs  int
 }
 
 func (g *gen) snapshot() string {
@@ -742,6 +749,13 @@ func (g *gen) genEmitFor(spec bool, forced *Node) (sim.Op, bool) {
 		if !c.Chance("same_creator_twice", 30) {
 			oc = append(oc[:ci], oc[ci+1:]...)
 		}
+	}
+	if !spec && forced == nil && k.deepLagNode == n.id && cl.emitted >= k.deepLagTo && g.lagSpecs < 2 && k.specPm > 0 {
+		// the returning validator first builds a candidate on top of what it knows and discards it (a walk over
+		// hundreds of vectors); what it publishes afterwards may observe less or more
+		g.lagSpecs++
+		spec = true
+		c.Probe("long_walk_build_discarded")
 	}
 	a := []int64{int64(n.id)}
 	if spec {
